@@ -24,8 +24,8 @@ type charsetModel struct {
 	sniffers  map[string]*ssa.Function // key constant -> function
 	snifKeys  []string
 	mapAlloc  ssa.Value
-	mapGlobal *ssa.Global   // set when the map lives in a package variable
-	dispFn    *ssa.Function // set when the sniffers are selected by a function (switch on the type) instead of a map
+	mapGlobal *ssa.Global          // set when the map lives in a package variable
+	dispFn    *ssa.Function        // set when the sniffers are selected by a function (switch on the type) instead of a map
 	direct    map[*ssa.Call]string // set when the sniffers are called directly under tests of the node's type: call -> type constant
 	bomFn     *ssa.Function
 	bomTable  *ssa.Global
